@@ -120,6 +120,18 @@ func (m *undoMonitor) AfterStep(rc *RunCtx, i int, st *Step, res *StepResult) *V
 	reset := func() { m.hist[k] = &undoHist{contents: []string{cur}, exact: []bool{true}} }
 	switch st.Op {
 	case "attach", "sync", "detach":
+		if st.Op == "sync" && rc.Cfg.Clients == 1 && rc.Cfg.Extra["undo_across_sync"] == 1 && h != nil {
+			// The only client of the document: a sync delivers no remote
+			// change, it only acknowledges (and lets the replica's garbage
+			// collector purge) the client's own tombstones. The history
+			// stays valid, and the sync must not change the content.
+			rc.W.probe("undo_history_kept_across_sync")
+			if res.Err == nil && cur != h.contents[h.pos] {
+				return &Violation{Property: m.prop, Oracle: "sole_client_sync_keeps_content", Class: "content_changed_by_sync_without_remote_changes",
+					Detail: fmt.Sprintf("client %d after sync: %s\n  before: %s", st.C, clip(cur), clip(h.contents[h.pos])), Step: i}
+			}
+			return nil
+		}
 		reset() // a remote change may have been applied: outside the quantifier
 	case "update":
 		if h == nil {
@@ -219,6 +231,18 @@ func c14Config(approx bool) func(r *rand.Rand) *RunConfig {
 	}
 }
 
+// c14GCConfig: the sole client also synchronises between edits, undos and
+// redos. No remote change exists, so the property's quantifier still holds,
+// but every acknowledged deletion is purged by the replica's own garbage
+// collector: Undo/Redo must then recreate content instead of reviving a
+// tombstone.
+func c14GCConfig(r *rand.Rand) *RunConfig {
+	cfg := c14Config(false)(r)
+	cfg.W["sync"] = 8 + r.IntN(20)
+	cfg.Extra["undo_across_sync"] = 1
+	return cfg
+}
+
 func c14Monitors(rc *RunCtx) []Monitor {
 	return []Monitor{
 		&sessionTap{},
@@ -260,6 +284,11 @@ func undoNontrivial(rc *RunCtx) bool {
 func init() {
 	Register(&Profile{Name: "c14_undo_exact", Property: "C14", Config: c14Config(false), Next: SessionNext, Monitors: c14Monitors, Nontrivial: undoNontrivial})
 	Register(&Profile{Name: "c14_undo_approx", Property: "C14", Config: c14Config(true), Next: SessionNext, Monitors: c14Monitors, Nontrivial: undoNontrivial})
+	Register(&Profile{Name: "c14_undo_gc", Property: "C14", Config: c14GCConfig, Next: SessionNext, Monitors: c14Monitors,
+		Nontrivial: func(rc *RunCtx) bool {
+			p := rc.W.Stats.Probes
+			return undoNontrivial(rc) && p["undo_history_kept_across_sync"] > 0
+		}})
 	Register(&Profile{Name: "c15_undo_sync", Property: "C15", Config: c15Config, Next: SessionNext, Monitors: c15Monitors,
 		Nontrivial: func(rc *RunCtx) bool {
 			p := rc.W.Stats.Probes
